@@ -702,6 +702,7 @@ pub fn canned() -> Vec<(&'static str, &'static str, Case)> {
         with_validation: true,
         summary: SummarySpec { values: MSummary { codepage: 1252, title: Some("t".into()), word_count: Some(2), ..MSummary::default() }, version: 0, header_gap: 0, gaps: vec![], reverse_values: false, trailing: 0, rotate: 0 },
         streams: vec![("Binary.a".into(), vec![1, 2, 3])],
+        stale_validation: false,
     };
     let mk = |c: Vec<Corrupt>| Case { db: db.clone(), corrupt: c };
     vec![
